@@ -97,7 +97,7 @@ def make_ref(tmpdir):
     return ReferenceTest(_assert_fn)
 
 
-def call_entry(ref, entry, la, le, kw, workdir, nl_a=True, nl_e=True, tag='x'):
+def call_entry(ref, entry, la, le, kw, workdir, nl_a=True, nl_e=True, tag='x', actual_path=None):
     """Runs one assertion entry point on real files; returns ('pass'|'fail'|'error', message)."""
     def text(ls, nl):
         return '\n'.join(ls) + ('\n' if nl and ls else '')
@@ -109,7 +109,7 @@ def call_entry(ref, entry, la, le, kw, workdir, nl_a=True, nl_e=True, tag='x'):
             if entry == 'string':
                 ref.assertStringCorrect(text(la, nl_a), rp, **kw)
             else:
-                ap = os.path.join(workdir, 'act_%s.txt' % tag)
+                ap = actual_path or os.path.join(workdir, 'act_%s.txt' % tag)
                 with open(ap, 'w', encoding='utf-8', newline='') as f:
                     f.write(text(la, nl_a))
                 if entry == 'file':
